@@ -45,6 +45,13 @@ type FSM struct {
 	sessionExpirationMu  sync.RWMutex
 	sessionExpirationDur time.Duration
 
+	// lastApplied is the index of the most recent raft log entry which was
+	// applied or loaded from a snapshot. After a process restart, ircstore
+	// still contains the entries of the previous run: until raft has
+	// replayed them, entries beyond lastApplied must not end up in a
+	// snapshot, otherwise they are applied twice when restoring it.
+	lastApplied uint64
+
 	ReplaceState func(*ircserver.IRCServer, *raftstore.LevelDBStore, *outputstream.OutputStream)
 
 	restoreMu sync.Mutex
@@ -209,6 +216,8 @@ func (fsm *FSM) Apply(l *raft.Log) interface{} {
 		}
 	}
 
+	fsm.lastApplied = l.Index
+
 	msg := robust.NewMessageFromBytes(l.Data, robust.IdFromRaftIndex(l.Index))
 	glog.Infof("Apply(msg.Type=%s)\n", msg.Type)
 	return fsm.applyProto(&p, &msg)
@@ -234,6 +243,13 @@ func (fsm *FSM) Snapshot() (raft.FSMSnapshot, error) {
 	}
 	if first < 1 {
 		return nil, fmt.Errorf("first index of ircstore (%d) is < 1", first)
+	}
+	if last > fsm.lastApplied {
+		// Left-overs of the previous process run which raft did not replay yet.
+		last = fsm.lastApplied
+	}
+	if last < first {
+		return nil, fmt.Errorf("no messages applied yet (first index of ircstore is %d, last applied index is %d)", first, last)
 	}
 
 	log.Printf("Filtering and writing up to %d indexes (from %d to %d)\n", last-first+1, first, last)
@@ -412,6 +428,7 @@ func (fsm *FSM) Restore(snap io.ReadCloser) error {
 		glog.Error(err)
 	}
 
+	fsm.lastApplied = 0
 	ircServer = ircserver.NewIRCServer(*network, time.Now())
 	outputStream, err = outputstream.NewOutputStream(*raftDir)
 	if err != nil {
@@ -487,6 +504,7 @@ func (fsm *FSM) decodeProtobuf(b *bufio.Reader) error {
 
 		binary.BigEndian.PutUint64(lenbuf[:], entry.Index)
 		batch.Put(lenbuf[:], buf)
+		fsm.lastApplied = entry.Index
 		if batch.Len() > 100 {
 			if err := fsm.ircstore.WriteBatch(&batch); err != nil {
 				log.Panicf("Could not persist message in irclogs/: %v", err)
